@@ -4,7 +4,7 @@ from common import SYNC_RW, RAFT_ENV  # noqa: F401
 CHECK = {
     "level": "model_checking",
     "rule": "H: BFS (depth 3/4) over {issue on issuer 1|2, revoke(cert), rotate CRL, tidy, auto_rebuild on|off, delete "
-            "issuer 2, re-import of issuer 2, delta CRLs on|off and their rotation, import of a foreign CA whose serial collides with a leaf, keyed intermediate CAs created inside the mount (int1 signed by issuer 2, int2 signed by int1) and their revocation (a serial belongs on the CRL of its own issuer, also when that issuer is revoked itself), issuer 1 re-issued on its existing key (two equivalent issuers sharing one CRL) and the mount's default issuer moved between the issuers (from the initial state and from a six-step pre-state with an unassigned revocation, a revoked leaf of issuer 1 and the re-issued issuer), a subordinate CA certificate signed outside of the mount and imported WITHOUT its key and its revocation, restart} on the real PKI engine in a real Core with two issuers, deduplicated by (per-cert issuer and "
+            "issuer 2, re-import of issuer 2, delta CRLs on|off and their rotation, import of a foreign CA whose serial collides with a leaf, keyed intermediate CAs created inside the mount (int1 signed by issuer 2, int2 signed by int1) their revocation and the removal + re-import of a revoked intermediate (a serial belongs on the CRL of its own issuer, also when that issuer is revoked itself), issuer 1 re-issued on its existing key (two equivalent issuers sharing one CRL) and the mount's default issuer moved between the issuers (from the initial state and from a six-step pre-state with an unassigned revocation, a revoked leaf of issuer 1 and the re-issued issuer), a subordinate CA certificate signed outside of the mount and imported WITHOUT its key and its revocation, restart} on the real PKI engine in a real Core with two issuers, deduplicated by (per-cert issuer and "
             "revocation state, auto_rebuild, rotated-since-revoke, issuer-2-removed); the oracle runs after every step. F/K: "
             "every failing storage operation and every crash point of a revocation and of a CRL rotation, retried (after "
             "restart) until success. S: every interleaving (storage-operation and contended-lock points, bound 2/3) of concurrent revocations, of a revocation with a CRL rotation, with an issuer removal (whose rebuild does not take the revocation lock; judged BEFORE any further rotation) and of a configuration write with a reader. non-trivial = distinct model states / (operation, failed op kind and key class, attempts) "
